@@ -832,3 +832,85 @@ def run_pf_history(case, rec):
 
 
 SUBS.append(Sub("phasefield_history", run_pf_history, gen=pf_histories, quick=60, thorough=500, shards=6))
+
+
+# ------------------------------------------------------------------------------------------
+# InElastic (history-dependent material): once the mesh is replaced, the simulation behaves like a new one on the new mesh (the
+# committed internal variables belong to the integration points of the old mesh) - also when both meshes have the same number of
+# elements
+
+
+@st.composite
+def inel_histories(draw):
+    r = draw(gm.recipes2d(types=["TRI3", "QUAD4", "TRI6"], affine_ok=False, perm_ok=False, hmin=6, hmax=9, nmax=4))
+    same = draw(st.integers(0, 2)) > 0  # replacement with the same connectivity on another geometry (same Ne, same nPg)
+    r2 = dict(r, A=[[draw(st.sampled_from([0.5, 1.5, 2.0])), draw(st.integers(-2, 2)) / 4.0], [0.0, draw(st.sampled_from([0.75, 1.0, 2.0]))]],
+              b=[0.0, 0.0]) if same else draw(gm.recipes2d(types=[r["elemType"]], affine_ok=False, perm_ok=False, hmin=6, hmax=9, nmax=4))
+    return dict(kind="inelastic", recipe=r, recipe2=r2, same=same, nsteps=draw(st.integers(1, 3)),
+                model=dict(E=draw(st.sampled_from([210.0, 70.0])), v=draw(st.integers(0, 8)) / 20.0, ey=1e-3,
+                           H=draw(st.sampled_from([None, 0.0, 0.1])), nkin=draw(st.integers(0, 1)), nbranch=0,
+                           planeStress=draw(st.integers(0, 3)) == 0, thickness=draw(st.sampled_from([1.0, 0.5]))),
+                amp=draw(st.integers(3, 8)), amp2=draw(st.integers(-6, 6)))
+
+
+def _inel_bc(simu, mesh, lam):
+    simu.Bc_Init()
+    X = np.asarray(mesh.coord, float)
+    bn = gm.boundary_nodes(mesh)
+    p = X[bn, 0]
+    lo, hi = p.min(), p.max()
+    fixed = bn[p <= lo + 0.3 * (hi - lo)]
+    moved = bn[p >= hi - 0.3 * (hi - lo)]
+    simu.add_dirichlet(fixed, [0.0, 0.0], ["x", "y"])
+    simu.add_dirichlet(moved, [float(lam) * (hi - lo), 0.0], ["x", "y"])
+
+
+def run_inel_history(case, rec):
+    from vlib import c16_sims as cs16
+
+    sig = dict(kind="inelastic", elemType=case["recipe"]["elemType"], same=bool(case["same"]))
+    rec.label("kind:inelastic", "replacement:same_size" if case["same"] else "replacement:other_mesh")
+    mesh = gm.build(case["recipe"])
+    mesh2 = gm.build(case["recipe2"])
+    if max(mesh.Nn, mesh2.Nn) > 60:
+        raise Inconclusive("mesh too large for a history")
+    m = dict(case["model"])
+    ey = float(m["ey"])
+
+    def solve(s):
+        try:
+            return np.array(s.Solve(), float).copy()
+        except AssertionError as e:
+            if "converge" in str(e).lower():
+                raise Inconclusive("Newton / local solve did not converge")
+            raise
+
+    simu = Simulations.InElastic(mesh, cs16.inelastic_law(m, 2))
+    flowed = False
+    for k in range(int(case["nsteps"])):
+        _inel_bc(simu, mesh, case["amp"] * ey * (k + 1) / case["nsteps"])
+        solve(simu)
+        simu.Save_Iter()
+        p = simu.Result("p", nodeValues=False) if "p" in simu.Results_Available() else None
+        flowed = flowed or (p is not None and float(np.max(p)) > 0)
+    rec.label("history:plastic" if flowed else "history:elastic")
+    simu.mesh = mesh2
+    lam2 = case["amp2"] * ey
+    _inel_bc(simu, mesh2, lam2)
+    u1 = solve(simu)
+    fresh = Simulations.InElastic(gm.build(case["recipe2"]), cs16.inelastic_law(m, 2))
+    _inel_bc(fresh, fresh.mesh, lam2)
+    u2 = solve(fresh)
+    rec.require(u1.shape == u2.shape, "solution_shape", f"{u1.shape} vs {u2.shape}", **sig)
+    rec.close(u1 - u2, np.abs(u2).max() + 1e-9, 1e-7, "stale_state_after_mesh_replacement",
+              f"{sig['elemType']} (same number of elements: {case['same']}): the first step on the replacement mesh differs from the one of "
+              "a new simulation on that mesh", **sig)
+    for nm in ("Svm", "p"):
+        if nm in simu.Results_Available():
+            a, b = np.asarray(simu.Result(nm, nodeValues=False), float), np.asarray(fresh.Result(nm, nodeValues=False), float)
+            rec.close(a - b, np.abs(b).max() + ey * m["E"] * (1.0 if nm == "Svm" else 1.0 / m["E"]), 1e-6, "stale_result_" + nm,
+                      f"Result('{nm}') after the replacement differs from a new simulation", **sig)
+    rec.nontrivial(flowed)
+
+
+SUBS.append(Sub("inelastic_history", run_inel_history, gen=inel_histories, quick=40, thorough=300, shards=4))
